@@ -221,6 +221,14 @@ func ParsePosition(route, src string) (pos SyntaxObs, msg string, err error) {
 }
 
 func init() {
+	// Go-side witness of D19_internal_error_text_static_name
+	core.GoWitnesses["c19_internal_error_text"] = func() (string, error) {
+		_, err := otto.New().Run(`TypeError.prototype.name = "Zed"; var x = 1; x();`)
+		if err == nil {
+			return "", fmt.Errorf("no error returned")
+		}
+		return err.Error(), nil
+	}
 	// Go-side witness of D19_error_text_from_construction: the text of the error Run returns
 	core.GoWitnesses["c19_error_text"] = func() (string, error) {
 		_, err := otto.New().Run(`var e = new TypeError("abc"); e.name = "Foo"; e.message = "bar"; throw e;`)
